@@ -1089,6 +1089,58 @@ def run(ctx: Any, prog: Program) -> None:
                       text=f'{qn[11:]} [{cname3}]: merged iff split')
     if n30 < 5:
         raise AnalysisError(f'L30: {n30} layout instances of a merged slot found (the area/flags slot of the leaf lump under 5 layouts confirmed by hand)')
+    # ---- L31: float coordinates go into integer slots through a quantiser that is the identity on integers ------------------------------------
+    # The reader hands integer slots back as they are (`Vec(x, y, z)` of ints): a look-and-save cycle must write the same integers.
+    # `round(v)` does; `int(v + 0.5)` truncates towards zero, so every negative integer n is written as n + 1.
+    ctx.rule('C11.L31', 'lump writers quantise with round(), never with int(v + 0.5) / int(v - 0.5)', floor=1)
+    n31 = 0
+    for qn, wfn in ms.items():
+        if not qn.startswith('_lmp_write_'):
+            continue
+        for c in ast.walk(wfn):
+            if isinstance(c, ast.Call) and dotted(c.func) == 'round' and len(c.args) == 1:
+                n31 += 1
+            if isinstance(c, ast.Call) and dotted(c.func) in ('int', 'math.trunc') and len(c.args) == 1 and isinstance(c.args[0], ast.BinOp) and isinstance(c.args[0].op, (ast.Add, ast.Sub)) \
+                    and isinstance(c.args[0].right, ast.Constant) and c.args[0].right.value == 0.5:
+                n31 += 1
+                ctx.check('C11.L31', False, bsp, c, f'BSP.{qn} quantises with `{U(c)[:40]}`: int() truncates towards zero, so a negative whole coordinate n is written as n + 1 (-128 becomes -127) and every look-and-save '
+                          'cycle moves it further', func=f'BSP.{qn}', text=f'{qn[11:]}: `{U(c)[:30]}` is the identity on integers')
+    ctx.check('C11.L31', n31 >= 1, bsp, bsp.tree, 'quantising calls of the lump writers examined', text='writers quantise with round()')
+    # ---- L32: a type code decoded into a boolean field is the code written for it --------------------------------------------------------------
+    # `DetailPropShape(..., detail_type == 3, ...)`: the reader turns code 3 into is_cross = True; the writer must write 3 exactly when
+    # is_cross is set (`3 if prop.is_cross else 2`).  The two sites are far apart and each looks plausible alone.
+    ctx.rule('C11.L32', 'a code the reader compares with a constant to set a boolean field is the constant the writer writes when the field is set', floor=1)
+    n32 = 0
+    for qn, rfn in ms.items():
+        if not qn.startswith('_lmp_read_') or ('_lmp_write_' + qn[len('_lmp_read_'):]) not in ms:
+            continue
+        wfn = ms['_lmp_write_' + qn[len('_lmp_read_'):]]
+        for ctor in [c for c in ast.walk(rfn) if isinstance(c, ast.Call) and isinstance(c.func, ast.Name) and bsp.has_class(c.func.id)]:
+            try:
+                flds = [f_ for b_ in reversed(mro(bsp, ctor.func.id)) if bsp.has_class(b_) for f_ in class_fields(bsp, b_)]
+            except AnalysisError:
+                continue
+            pairs32 = [(flds[i], a) for i, a in enumerate(ctor.args) if i < len(flds)] + [(k.arg, k.value) for k in ctor.keywords if k.arg]
+            for fld, a in pairs32:
+                if not (isinstance(a, ast.Compare) and len(a.ops) == 1 and isinstance(a.ops[0], (ast.Eq, ast.NotEq)) and isinstance(a.left, ast.Name) and isinstance(a.comparators[0], ast.Constant)
+                        and isinstance(a.comparators[0].value, int)):
+                    continue
+                code, pos = a.comparators[0].value, isinstance(a.ops[0], ast.Eq)
+                wies = [ie for ie in ast.walk(wfn) if isinstance(ie, ast.IfExp) and isinstance(ie.body, ast.Constant) and isinstance(ie.orelse, ast.Constant)
+                        and ((isinstance(ie.test, ast.Attribute) and ie.test.attr == fld) or (isinstance(ie.test, ast.UnaryOp) and isinstance(ie.test.op, ast.Not) and isinstance(ie.test.operand, ast.Attribute) and ie.test.operand.attr == fld))]
+                if len(wies) != 1:
+                    ctx.shape('C11.L32', False, bsp, a, f'BSP.{qn} decodes `{U(a)}` into {ctor.func.id}.{fld}; how the writer chooses the code for that field was not recognised', func=f'BSP.{qn}', text=f'{qn[10:]}: code of {fld}')
+                    continue
+                ie = wies[0]
+                neg = isinstance(ie.test, ast.UnaryOp)
+                when_set = ie.orelse.value if neg else ie.body.value
+                when_clear = ie.body.value if neg else ie.orelse.value
+                n32 += 1
+                ok32 = (when_set == code and when_clear != code) if pos else (when_clear == code and when_set != code)
+                ctx.check('C11.L32', ok32, bsp, ie, f'BSP.{qn} sets {ctor.func.id}.{fld} from `{U(a)}`, but BSP._lmp_write_{qn[10:]} writes `{U(ie)[:40]}`: code {when_set} when the field is set and {when_clear} when it is not - '
+                          f'the field comes back inverted', func=f'BSP._lmp_write_{qn[10:]}', text=f'{qn[10:]}: code of {fld}')
+    if n32 < 1:
+        raise AnalysisError('L32: no decoded boolean code found (DetailPropShape.is_cross confirmed by hand)')
     # ---- L15: auxiliary lumps -----------------------------------------------------------------------------------------------
     n_aux = 0
     for qn, fn in ms.items():
@@ -1264,6 +1316,8 @@ def run(ctx: Any, prog: Program) -> None:
 
 
 MUTANTS = [
+    {'id': 'cubemap_origin_truncated', 'file': 'bsp.py', 'find': "                round(cube.origin.x),", 'replace': "                int(cube.origin.x + 0.5),", 'expect': 'C11.L31', 'note': 'round 13'},
+    {'id': 'detail_shape_codes_swapped_in_writer', 'file': 'bsp.py', 'find': "                detail_type = 3 if prop.is_cross else 2", 'replace': "                detail_type = 2 if prop.is_cross else 3", 'expect': 'C11.L32', 'note': 'round 13'},
     {'id': 'vitamin_leaf_area_slot_takes_flags', 'file': 'bsp.py', 'find': "                    leaf.contents.value, leaf.cluster_id, leaf.area,\n", 'replace': "                    leaf.contents.value, leaf.cluster_id, leaf.flags.value,\n", 'expect': 'C11.L3', 'note': 'round 12 follow-up: the leaf records are linked now (zip binding + late destructuring)'},
     {'id': 'vitamin_leaf_area_packed_merged', 'file': 'bsp.py', 'find': "                    leaf.contents.value, leaf.cluster_id, leaf.area,\n", 'replace': "                    leaf.contents.value, leaf.cluster_id, (leaf.area << self.lump_layout['LEAF_AREA_OFFSET'] | leaf.flags.value),\n", 'expect': 'C11.L30', 'refuse_ok': True, 'note': 'round 12: a second merge - L30 declines (the seed C10-X is the detected form)'},
     {'id': 'static_prop_scaling_hoisted', 'file': 'bsp.py', 'find': "        for i in range(prop_count):\n            start = static_lump.tell()", 'replace': "        no_scaling = Vec(1.0, 1.0, 1.0)\n        for i in range(prop_count):\n            start = static_lump.tell()", 'extra': [{'file': 'bsp.py', 'find': "            scaling = Vec(1.0, 1.0, 1.0)\n", 'replace': "            scaling = no_scaling\n"}], 'expect': 'C11.L29', 'note': 'round 11: hoisted per-record Vec'},
